@@ -230,11 +230,11 @@ class BaseSection(base.Sectionable):
         # strict needs to be False, otherwise finalizing a document will
         # basically always fail.
         try:
-            self.merge(new_section, strict=False)
+            self.merge(new_section, strict=False, _reference=True)
         except Exception:
             # Keep the previous include (resolved as it was) if the new one is refused.
             if old_section is not None:
-                self.merge(old_section, strict=False)
+                self.merge(old_section, strict=False, _reference=True)
             raise
         self._include = new_value
 
@@ -279,13 +279,13 @@ class BaseSection(base.Sectionable):
         # strict needs to be False, otherwise finalizing a document will
         # basically always fail.
         try:
-            self.merge(new_section, strict=False)
+            self.merge(new_section, strict=False, _reference=True)
         except Exception:
             # Keep the previous link (resolved as it was) if the new one is refused;
             # cleaning has rewritten its path.
             try:
                 if old_section is not None:
-                    self.merge(old_section, strict=False)
+                    self.merge(old_section, strict=False, _reference=True)
             finally:
                 self._link = old_link
             raise
@@ -740,7 +740,7 @@ class BaseSection(base.Sectionable):
                 raise ValueError("odml.Section.merge: a Section named '%s' with a different "
                                  "type already exists in the destination!" % obj.name)
 
-    def merge(self, section=None, strict=True):
+    def merge(self, section=None, strict=True, _reference=False):
         """
         Merges this section with another *section*.
         See also: :py:attr:`odml.section.BaseSection.link`
@@ -753,6 +753,10 @@ class BaseSection(base.Sectionable):
         :param strict: Bool value to indicate whether the attributes of affected
                        child Properties except their ids and values have to be identical
                        to be merged. Default is True.
+        :param _reference: used when a link or an include is resolved: a child Section
+                           of this Section keeps its name, a child Section of the
+                           referenced Section with the same name but another type
+                           is not copied.
         """
         if section is None:
             # for the high level interface
@@ -775,7 +779,8 @@ class BaseSection(base.Sectionable):
         # its children can be merged with self and its children since
         # there is no rollback in case of a downstream merge error.
         self.merge_check(section, strict)
-        self._merge_name_check(section)
+        if not _reference:
+            self._merge_name_check(section)
 
         # Remember which attributes are taken over from the merged Section:
         # they are removed again when the Section is unmerged.
@@ -790,7 +795,13 @@ class BaseSection(base.Sectionable):
         for obj in section:
             mine = self.contains(obj)
             if mine is not None:
-                mine.merge(obj, strict)
+                if isinstance(obj, BaseSection):
+                    mine.merge(obj, strict, _reference)
+                else:
+                    mine.merge(obj, strict)
+            elif _reference and isinstance(obj, BaseSection) and obj.name in self.sections:
+                # The name is used by a Section of this Section.
+                continue
             else:
                 mine = obj.clone()
                 mine._merged = obj
